@@ -124,72 +124,82 @@ def txn(d, iocb, S, segc, segs, wc, ws, retries, req, resp, nf, kinds, horizon, 
 ALL_KINDS = [nl.DROP, nl.DUP, nl.HOLD, nl.SILENCE]
 
 
+def label(p):
+    return "%s,S%d,seg%d/%d,w%d/%d,r%d,req%s,resp%s,%dx%s,%s%s" % (
+        "iocb" if p["iocb"] else "direct", p["S"], p["segc"], p["segs"], p["wc"], p["ws"], p["retries"],
+        "-".join(map(str, p["req"])), "-".join(map(str, p["resp"])), p["nf"],
+        "".join("DUHS"[k] for k in p["kinds"]), p["mode"],
+        (",first=" + nl.FAULT_NAMES[p["first_kind"]]) if "first_kind" in p else "")
+
+
 def instances(tier):
     q = tier == "quick"
     out = []
     S = 50
-    # body overhead of a private transfer around S: request header 4(+2), body 3+2+1+2+L+1
+    # a private-transfer body is 10 octets + payload (11 from 5 octets of payload on); S = 50:
+    # payload 3 -> unsegmented, 60 -> 2 segments, 100 -> 3 segments, 150 -> 4 segments
     base = dict(S=S, wc=2, ws=2, retries=1, horizon=14, mode="ack")
     both = SEG.index("segmentedBoth")
     if q:
         cfgs = [
             # unsegmented both ways, every single fault
-            dict(iocb=False, segc=both, segs=both, req=(0, 8), resp=(0, 8), nf=1, kinds=ALL_KINDS),
-            dict(iocb=True, segc=both, segs=both, req=(0, 8), resp=(0, 8), nf=1, kinds=ALL_KINDS),
-            # segmented request (2-3 segments), unsegmented response
-            dict(iocb=False, segc=both, segs=both, req=(60, 100), resp=(0, 4), nf=1, kinds=ALL_KINDS),
+            dict(iocb=False, segc=both, segs=both, req=(3, 3), resp=(3, 3), nf=1, kinds=ALL_KINDS),
+            dict(iocb=True, segc=both, segs=both, req=(0, 1), resp=(2, 2), nf=1, kinds=ALL_KINDS),
+            # segmented request (2 / 3 segments), unsegmented response
+            dict(iocb=False, segc=both, segs=both, req=(60, 60), resp=(2, 2), nf=1, kinds=[nl.DROP, nl.DUP, nl.SILENCE]),
+            dict(iocb=True, segc=both, segs=both, req=(100, 100), resp=(0, 0), nf=1, kinds=[nl.DROP, nl.DUP]),
             # unsegmented request, segmented response
-            dict(iocb=True, segc=both, segs=both, req=(0, 4), resp=(60, 100), nf=1, kinds=ALL_KINDS),
+            dict(iocb=True, segc=both, segs=both, req=(2, 2), resp=(60, 60), nf=1, kinds=ALL_KINDS),
+            dict(iocb=False, segc=both, segs=both, req=(0, 0), resp=(100, 100), nf=1, kinds=[nl.DROP, nl.HOLD]),
             # both segmented, window 1 vs 3
-            dict(iocb=False, segc=both, segs=both, req=(60, 100), resp=(60, 100), nf=1, kinds=[nl.DROP, nl.DUP], wc=1, ws=3),
+            dict(iocb=False, segc=both, segs=both, req=(100, 100), resp=(100, 100), nf=1, kinds=[nl.DROP, nl.DUP], wc=1, ws=3),
             # capability mismatches: must end in an abort, not silence
-            dict(iocb=False, segc=0, segs=both, req=(60, 100), resp=(0, 4), nf=0, kinds=ALL_KINDS),
-            dict(iocb=True, segc=1, segs=both, req=(0, 4), resp=(60, 100), nf=0, kinds=ALL_KINDS),
-            dict(iocb=False, segc=both, segs=0, req=(0, 4), resp=(60, 100), nf=0, kinds=ALL_KINDS),
+            dict(iocb=False, segc=0, segs=both, req=(60, 60), resp=(2, 2), nf=0, kinds=ALL_KINDS),
+            dict(iocb=True, segc=1, segs=both, req=(2, 2), resp=(60, 60), nf=0, kinds=ALL_KINDS),
+            dict(iocb=False, segc=both, segs=0, req=(2, 2), resp=(60, 60), nf=0, kinds=ALL_KINDS),
             # other outcomes
-            dict(iocb=False, segc=both, segs=both, req=(0, 4), resp=(0, 0), nf=1, kinds=[nl.DROP, nl.DUP], mode="error"),
-            dict(iocb=True, segc=both, segs=both, req=(0, 4), resp=(0, 0), nf=1, kinds=[nl.DROP, nl.DUP], mode="reject"),
-            dict(iocb=False, segc=both, segs=both, req=(0, 4), resp=(0, 0), nf=1, kinds=[nl.DROP], mode="abort"),
-            dict(iocb=True, segc=both, segs=both, req=(0, 4), resp=(0, 0), nf=0, kinds=[nl.DROP], mode="silent"),
-            # retry counts 0 and 3 under total silence
-            dict(iocb=False, segc=both, segs=both, req=(0, 4), resp=(0, 4), nf=1, kinds=[nl.SILENCE], retries=0),
-            dict(iocb=True, segc=both, segs=both, req=(0, 4), resp=(0, 4), nf=1, kinds=[nl.SILENCE], retries=3),
+            dict(iocb=False, segc=both, segs=both, req=(2, 2), resp=(0, 0), nf=1, kinds=[nl.DROP, nl.DUP], mode="error"),
+            dict(iocb=True, segc=both, segs=both, req=(2, 2), resp=(0, 0), nf=1, kinds=[nl.DROP, nl.DUP], mode="reject"),
+            dict(iocb=False, segc=both, segs=both, req=(2, 2), resp=(0, 0), nf=1, kinds=[nl.DROP], mode="abort"),
+            dict(iocb=True, segc=both, segs=both, req=(2, 2), resp=(0, 0), nf=0, kinds=[nl.DROP], mode="silent"),
+            # retry counts 0 and 3 under total silence from any point on
+            dict(iocb=False, segc=both, segs=both, req=(2, 2), resp=(2, 2), nf=1, kinds=[nl.SILENCE], retries=0),
+            dict(iocb=True, segc=both, segs=both, req=(2, 2), resp=(2, 2), nf=1, kinds=[nl.SILENCE], retries=3),
         ]
         for c in cfgs:
             p = dict(base)
             p.update(c)
-            out.append(Inst(txn, p, budget=80, path_timeout=60))
+            out.append(Inst(txn, p, budget=80, path_timeout=60, label=label(p)))
     else:
         for iocb in (False, True):
-            for (req, resp) in [((0, 8), (0, 8)), ((28, 40), (0, 4)), ((0, 4), (28, 40)), ((60, 100), (0, 4)),
-                                ((0, 4), (60, 100)), ((60, 100), (60, 100)), ((130, 150), (130, 150))]:
+            for (req, resp) in [((0, 4), (3, 3)), ((33, 35), (2, 2)), ((2, 2), (33, 35)), ((60, 60), (2, 2)),
+                                ((2, 2), (60, 60)), ((100, 100), (100, 100)), ((150, 150), (140, 140))]:
                 for (wc, ws) in [(2, 2), (1, 3), (8, 1), (3, 8)]:
                     p = dict(base, iocb=iocb, segc=both, segs=both, req=req, resp=resp, nf=1, kinds=ALL_KINDS,
                              wc=wc, ws=ws, horizon=22)
-                    out.append(Inst(txn, p, budget=400, path_timeout=90))
+                    out.append(Inst(txn, p, budget=500, path_timeout=90, label=label(p)))
         # two faults on the unsegmented and lightly segmented shapes
-        for (req, resp) in [((0, 8), (0, 8)), ((60, 100), (0, 4)), ((0, 4), (60, 100))]:
+        for (req, resp) in [((3, 3), (3, 3)), ((60, 60), (2, 2)), ((2, 2), (60, 60))]:
             for k1 in ALL_KINDS:
-                p = dict(base, iocb=False, segc=both, segs=both, req=req, resp=resp, nf=2, kinds=[k1] if False else ALL_KINDS,
-                         horizon=12)
-                p["first_kind"] = k1
-                out.append(Inst(txn2, p, budget=600, path_timeout=90))
+                p = dict(base, iocb=False, segc=both, segs=both, req=req, resp=resp, nf=2, kinds=ALL_KINDS,
+                         horizon=12, first_kind=k1)
+                out.append(Inst(txn2, p, budget=900, path_timeout=90, label=label(p)))
         # all 4x4 segmentation-support settings on a shape that needs segmentation both ways
         for segc in range(4):
             for segs in range(4):
-                p = dict(base, iocb=bool((segc + segs) % 2), segc=segc, segs=segs, req=(60, 100), resp=(60, 100), nf=1,
+                p = dict(base, iocb=bool((segc + segs) % 2), segc=segc, segs=segs, req=(60, 60), resp=(60, 60), nf=1,
                          kinds=[nl.DROP, nl.DUP])
-                out.append(Inst(txn, p, budget=300, path_timeout=90))
+                out.append(Inst(txn, p, budget=300, path_timeout=90, label=label(p)))
         # retries 0..3 x outcome modes
         for retries in range(4):
             for mode in ("ack", "error", "reject", "abort", "silent"):
-                p = dict(base, iocb=bool(retries % 2), segc=both, segs=both, req=(0, 4), resp=(0, 4), nf=1, kinds=ALL_KINDS,
+                p = dict(base, iocb=bool(retries % 2), segc=both, segs=both, req=(2, 2), resp=(2, 2), nf=1, kinds=ALL_KINDS,
                          retries=retries, mode=mode)
-                out.append(Inst(txn, p, budget=300, path_timeout=90))
+                out.append(Inst(txn, p, budget=300, path_timeout=90, label=label(p)))
         # S = 128
-        for (req, resp) in [((120, 140), (0, 4)), ((0, 4), (120, 140)), ((250, 262), (250, 262))]:
+        for (req, resp) in [((130, 130), (2, 2)), ((2, 2), (130, 130)), ((260, 260), (260, 260))]:
             p = dict(base, S=128, iocb=False, segc=both, segs=both, req=req, resp=resp, nf=1, kinds=ALL_KINDS, horizon=18)
-            out.append(Inst(txn, p, budget=400, path_timeout=90))
+            out.append(Inst(txn, p, budget=500, path_timeout=90, label=label(p)))
     return out
 
 
